@@ -15,6 +15,13 @@ package main
 //	  side-graph-isdir     --save-graph DIR where DIR/B.gml is a directory (the file cannot be created)
 //	  side-graph-mkdir     --save-graph <a regular file>/g (the directory cannot be created: log.Panicf, already non-zero)
 //	  nofault-side-ratio / nofault-side-graph / nofault-side-both : status 0 and the files hold what they have to hold
+//	  both<S>-<g>-<r>      BOTH options at once, S = 2 | 3 samples (A, B, C); <g> = ok | full<X> (DIR/<X>.gml is a symbolic
+//	                       link to /dev/full) | isdir<X> (DIR/<X>.gml is a directory); <r> = ok | full (/dev/full) | nodir:
+//	                       graph faulted + table fine, graph fine + table faulted, both faulted, both fine. The status is 0
+//	                       iff ALL the side files are written (Model/WriteSide.lean exitSide: `sides.any Side.bad`): the
+//	                       success of a later side file must not erase the failure of an earlier one (seeded C18-m7). The
+//	                       graphs are written in the order of a Go map: the faulted one is met first / in the middle / last
+//	                       at random (statistic side-graph-fault-met-after-<k>-of-<S>, read from the files left behind).
 //
 // oracle signatures: cmd.obiclean.side-file.<scenario>[.content|.no-message]
 
@@ -35,7 +42,7 @@ var c18SideCommands = []string{"obiclean"}
 
 // c18SideInput: one abundant sequence `h` present in samples A and B and n variants of it, each with ONE substitution
 // at a position of its own: every variant is a son of `h` at distance 1 in both samples and of nobody else.
-func c18SideInput(path string, n int) (want []string) {
+func c18SideInput(path string, n int, samples []string) (want []string) {
 	l := n + 20
 	if l < 60 {
 		l = 60
@@ -46,13 +53,29 @@ func c18SideInput(path string, n int) (want []string) {
 	}
 	next := map[byte]byte{'a': 'c', 'c': 'g', 'g': 't', 't': 'a'}
 	var b strings.Builder
-	fmt.Fprintf(&b, ">h {\"count\":300,\"merged_sample\":{\"A\":200,\"B\":100}}\n%s\n", head)
+	// sample A: 200 reads of h and 4 of each variant; every other sample: 100 and 2
+	ms := func(a, o int) (string, int) {
+		var p []string
+		tot := 0
+		for _, sample := range samples {
+			c := o
+			if sample == "A" {
+				c = a
+			}
+			tot += c
+			p = append(p, fmt.Sprintf("\"%s\":%d", sample, c))
+		}
+		return strings.Join(p, ","), tot
+	}
+	hm, hc := ms(200, 100)
+	vm, vc := ms(4, 2)
+	fmt.Fprintf(&b, ">h {\"count\":%d,\"merged_sample\":{%s}}\n%s\n", hc, hm, head)
 	for i := 0; i < n; i++ {
 		p := 5 + i
 		s := append([]byte{}, head...)
 		s[p] = next[head[p]]
-		fmt.Fprintf(&b, ">v%d {\"count\":6,\"merged_sample\":{\"A\":4,\"B\":2}}\n%s\n", i, s)
-		for _, sample := range []string{"A", "B"} {
+		fmt.Fprintf(&b, ">v%d {\"count\":%d,\"merged_sample\":{%s}}\n%s\n", i, vc, vm, s)
+		for _, sample := range samples {
 			want = append(want, fmt.Sprintf("%s,h,%c,%c,%d", sample, head[p], s[p], p))
 		}
 	}
@@ -93,8 +116,8 @@ func c18SideCsvOK(path string, want []string) string {
 }
 
 // c18SideGmlOK: one well-formed graph per sample: `graph [` … `]` with balanced brackets, n+1 nodes, n edges
-func c18SideGmlOK(dir string, n int) string {
-	for _, sample := range []string{"A", "B"} {
+func c18SideGmlOK(dir string, n int, samples []string) string {
+	for _, sample := range samples {
 		b, err := os.ReadFile(filepath.Join(dir, sample+".gml"))
 		if err != nil {
 			return "graph file missing: " + err.Error()
@@ -124,10 +147,42 @@ func c18SideGmlOK(dir string, n int) string {
 		}
 	}
 	ents, _ := os.ReadDir(dir)
-	if len(ents) != 2 {
-		return fmt.Sprintf("%d files in the graph directory, expected 2", len(ents))
+	if len(ents) != len(samples) {
+		return fmt.Sprintf("%d files in the graph directory, expected %d", len(ents), len(samples))
 	}
 	return ""
+}
+
+// c18SideBoth parses the scenario `both<S>-<g>-<r>`: the samples, the kind of fault of the graph files (ok | full |
+// isdir) and the sample whose graph is at fault, the kind of fault of the ratio table (ok | full | nodir)
+func c18SideBoth(sc string) (samples []string, g, gs, r string, ok bool) {
+	p := strings.Split(sc, "-")
+	if len(p) != 3 || (p[0] != "both2" && p[0] != "both3") {
+		return
+	}
+	samples = []string{"A", "B", "C"}[:int(p[0][4]-'0')]
+	switch {
+	case p[1] == "ok":
+		g = "ok"
+	case strings.HasPrefix(p[1], "full"):
+		g, gs = "full", p[1][4:]
+	case strings.HasPrefix(p[1], "isdir"):
+		g, gs = "isdir", p[1][5:]
+	default:
+		return
+	}
+	if g != "ok" {
+		known := false
+		for _, s := range samples {
+			known = known || s == gs
+		}
+		if !known {
+			return
+		}
+	}
+	r = p[2]
+	ok = r == "ok" || r == "full" || r == "nodir"
+	return
 }
 
 func c18CmdSide(f []string) (res c18Res) {
@@ -155,7 +210,14 @@ func c18CmdSide(f []string) (res c18Res) {
 	dir, _ := os.MkdirTemp("", "c18side")
 	defer os.RemoveAll(dir)
 	in := filepath.Join(dir, "in.fasta")
-	want := c18SideInput(in, n)
+	samples := []string{"A", "B"}
+	bothS, bothG, bothGS, bothR, both := c18SideBoth(sc)
+	if both {
+		samples = bothS
+	} else if strings.HasPrefix(sc, "both") {
+		return bad("", "")
+	}
+	want := c18SideInput(in, n, samples)
 	base := []string{"--min-eval-rate", "1", "--no-progressbar"}
 	run := func(args []string) (string, string, string, bool) {
 		cmd := exec.Command(bin, append(append(append([]string{}, base...), args...), in)...)
@@ -230,7 +292,28 @@ func c18CmdSide(f []string) (res c18Res) {
 	case "nofault-side-both":
 		args, needed = []string{"--save-ratio", csv, "--save-graph", g}, size(refCsv)
 	default:
-		return bad("", "")
+		if !both {
+			return bad("", "")
+		}
+		// both options; `needed` = the size of a side file at fault (the graph if there is one), of the table if none is
+		os.Mkdir(g, 0o755)
+		needed = size(refCsv)
+		ratio := csv
+		switch bothR {
+		case "full":
+			ratio = "/dev/full"
+		case "nodir":
+			ratio = filepath.Join(dir, "no", "such", "dir", "r.csv")
+		}
+		switch bothG {
+		case "full":
+			os.Symlink("/dev/full", filepath.Join(g, bothGS+".gml"))
+			needed = size(filepath.Join(refG, bothGS+".gml"))
+		case "isdir":
+			os.Mkdir(filepath.Join(g, bothGS+".gml"), 0o755)
+			needed = size(filepath.Join(refG, bothGS+".gml"))
+		}
+		args = []string{"--save-graph", g, "--save-ratio", ratio}
 	}
 	f[4] = strconv.FormatInt(needed, 10)
 	res.over = strings.Join(f, " ")
@@ -245,7 +328,23 @@ func c18CmdSide(f []string) (res c18Res) {
 	if needed > 4096 {
 		res.stats["subprocess:side-file-larger-than-4KiB"]++
 	}
-	if strings.HasPrefix(sc, "nofault") {
+	if both {
+		kind := map[bool]string{true: "fine", false: "faulted"}
+		res.stats["subprocess:side-both-graph-"+kind[bothG == "ok"]+"-ratio-"+kind[bothR == "ok"]]++
+		if bothG != "ok" {
+			// the graphs are written in map order and (unchanged code) the first failure ends the run: the graph files of
+			// the other samples that exist were written before the faulted one was met
+			before := 0
+			for _, s := range samples {
+				if s != bothGS && size(filepath.Join(g, s+".gml")) > 0 {
+					before++
+				}
+			}
+			res.stats[fmt.Sprintf("subprocess:side-graph-fault-met-after-%d-of-%d", before, len(samples))]++
+		}
+	}
+	nofault := strings.HasPrefix(sc, "nofault") || (both && bothG == "ok" && bothR == "ok")
+	if nofault {
 		if res.res != "exit0" {
 			res.fails = append(res.fails, Fail{Sig: sig, Text: "obiclean whose side files can all be written ended with " + res.res + ": " + c18Tail(errText)})
 			return res
@@ -261,7 +360,7 @@ func c18CmdSide(f []string) (res c18Res) {
 			}
 		}
 		if sc != "nofault-side-ratio" {
-			if msg := c18SideGmlOK(g, n); msg != "" {
+			if msg := c18SideGmlOK(g, n, samples); msg != "" {
 				res.fails = append(res.fails, Fail{Sig: sig + ".content", Text: msg})
 			}
 		}
@@ -271,7 +370,7 @@ func c18CmdSide(f []string) (res c18Res) {
 		return res
 	}
 	if res.res != "exit-nonzero" {
-		res.fails = append(res.fails, Fail{Sig: sig, Text: fmt.Sprintf("obiclean %s: a side file of %d bytes that the user asked for cannot be written, and the command ended with %s (stdout: %q)", strings.Join(args, " "), needed, res.res, c18Tail(outText))})
+		res.fails = append(res.fails, Fail{Sig: sig, Text: fmt.Sprintf("obiclean %s: a side file of %d bytes that the user asked for cannot be written, and the command ended with %s (stdout: %q, stderr: %q)", strings.Join(args, " "), needed, res.res, c18Tail(outText), c18Tail(errText))})
 	} else if !signaled {
 		low := strings.ToLower(errText)
 		if !strings.Contains(low, "fatal") && !strings.Contains(low, "cannot") && !strings.Contains(low, "error") && !strings.Contains(low, "panic") {
